@@ -20,6 +20,13 @@ def lnotab(rng, v, code_len, firstlineno=1):
             out += bytes([0, 127 if signed else 255])  # line continuation
             line[0] += 127 if signed else 255
             continue
+        if rng.random() < 0.12:
+            # a pair that is a valid 2-byte UTF-8 sequence (e.g. 200, 128): must not be read as one character
+            b1, b2 = rng.randrange(0xC2, 0xE0), rng.randrange(0x80, 0xC0)
+            out += bytes([b1, b2])
+            total += b1
+            line[0] += (b2 - 0x100) if signed else b2
+            continue
         bi = rng.choice([0, 1, 2, 2, 4, 6, 10, 100, 200, 254, 255])
         if signed:
             li = rng.choice([0, 1, 1, 2, 5, 100, 127, 128, 129, 200, 255, 0x80, 0xFF])
